@@ -8,6 +8,8 @@ Coq and with `=`, with the FIPS-197 spec (Spec/Fips197.v: no table) and with the
 (Model/Aes.v: aes_check, prim_check, ark_check, ks_check).  Python oracle on every call: no exception, the caller's
 arrays are unmodified.  Inputs: FIPS-197 appendix vectors, all-zero, all-0xFF, rolling states that put every byte value
 at every position (so every entry of every table is consumed), single-byte states, random; dtypes uint8/int16/int64.
+Call histories (HistoryKind): 2-4 calls in one process sharing memory images / ndarray objects / keys between calls, every
+result compared with the spec (the model of a pure function is history-free): hidden state between calls is seen.
 """
 import numpy as np
 
@@ -536,5 +538,311 @@ class SpecKatKind(Kind):
     def features(self, case, obs):
         return {'klen': len(case['key']), 'mode': 'dec' if case['dec'] else 'enc'}
 
+# --------------------------------------------------------------------------------------------- call histories
+def _coq_cipher(dec, key_many, keys, blk_many, blks, r, st, obs):
+    return ('{| ac_dec := %s; ac_key_many := %s; ac_keys := %s; ac_blk_many := %s; ac_blks := %s; ac_round := %s; ac_step := %s; '
+            'ac_obs_shape := %s; ac_obs := %s |}' % (
+                C.coq_bool(dec), C.coq_bool(key_many), _rows(keys), C.coq_bool(blk_many), _rows(blks), _opt_nat(r), _opt_nat(st),
+                C.coq_list(obs.get('shape', []), C.coq_nat), _nlist(obs.get('values', []))))
 
-KINDS = [CipherKind(), PrimKind(), ArkKind(), KeyScheduleKind(), SpecKatKind()]
+
+def _view(bufs, objs, arg):
+    """the ndarray handed to the code for one argument: a view of the named buffer under the given dtype and shape; the SAME
+    ndarray object is handed out again when the same (buffer, dtype, shape) is asked for again"""
+    k = (arg['buf'], arg['dtype'], tuple(arg['shape']))
+    if k not in objs:
+        nbytes = int(np.prod(arg['shape'])) * np.dtype(arg['dtype']).itemsize          # a prefix of the buffer
+        objs[k] = bufs[arg['buf']][:nbytes].view(arg['dtype']).reshape(arg['shape'])
+    return objs[k]
+
+
+def _play(case, fn=None):
+    """Run the history.  With fn=None nothing of scared is called: only the buffers are played, and the logical rows of every
+    argument of every call are returned (used by coq()).  With fn, fn(call, arrays) is called for each call."""
+    bufs = {n: np.array(img, dtype='uint8') for n, img in case['buffers'].items()}
+    objs = {}
+    out = []
+    for call in case['calls']:
+        for n, img in (call.get('set') or {}).items():
+            bufs[n][:] = np.array(img, dtype='uint8')          # in place: every view (every ndarray object handed out before) sees it
+        arrays = {a: _view(bufs, objs, spec) for a, spec in call['args'].items()}
+        rows = {a: (arr.reshape(-1, arr.shape[-1]).tolist(), arr.ndim >= 2) for a, arr in arrays.items()}
+        out.append((rows, fn(call, arrays) if fn else None))
+    return out
+
+
+def _img(vals, dtype='uint8'):
+    """memory image (uint8 list) of the byte values stored with the given dtype"""
+    return np.array(vals, dtype=dtype).view('uint8').reshape(-1).tolist()
+
+
+class HistoryKind(Kind):
+    name = 'history'
+    header = HDR
+    case_type = 'list call'
+    check_fn = 'hist_check'
+    explain_fn = 'hist_explain'
+    shard = 12
+    rule = ('sequences of 2-4 calls of encrypt / decrypt / key_schedule / the primitives in ONE process, every result compared with the spec: '
+            '(a) consecutive calls whose key (or state) arrays share a memory image under another shape / dtype / key size (32 bytes as one '
+            'AES-256 key or two AES-128 keys, 48 bytes as 2x24 or 3x16, 64 as 2x32 or 4x16, uint16 / int64 arrays vs the uint8 arrays with the same '
+            'bytes); (b) the SAME ndarray object mutated in place between two calls (key, state); (c) one key with other blocks / modes / stop '
+            'points; (d) alternating encrypt / decrypt with one key; (e) the returned array scribbled over by the caller, then the call repeated; '
+            'oracles: no exception, arguments unmodified, an earlier result is not changed by a later call; non-trivial = always')
+
+    # ---- generators
+    def _cipher_call(self, fn, key, blk, r=None, s=None, sets=None, scribble=False):
+        c = {'fn': fn, 'args': {'key': key, 'blk': blk}, 'round': r, 'step': s}
+        if sets:
+            c['set'] = sets
+        if scribble:
+            c['scribble'] = True
+        return c
+
+    def gen(self, rng, tier):
+        U8 = 'uint8'
+        reps = 1 if tier == 'quick' else 4
+        for rep in range(reps):
+            one_blk = {'buf': 'B', 'dtype': U8, 'shape': [16]}
+            # (a) one memory image, several readings of it as keys
+            readings = [
+                (32, [([32], 1), ([2, 16], 2)]),
+                (48, [([2, 24], 2), ([3, 16], 3)]),
+                (64, [([2, 32], 2), ([4, 16], 4)]),
+                (96, [([3, 32], 3), ([4, 24], 4)]),
+            ]
+            for nbytes, views in readings:
+                img = [_rand_row(rng, nbytes), list(range(nbytes)), [0] * nbytes][(rep + nbytes // 16) % 3] if rep == 0 else _rand_row(rng, nbytes)
+                for order in (views, views[::-1]):
+                    for fns in (('encrypt', 'encrypt'), ('decrypt', 'decrypt'), ('key_schedule', 'key_schedule'), ('encrypt', 'decrypt')):
+                        calls = []
+                        for (shape, nkeys), fn in zip(order, fns):
+                            key = {'buf': 'K', 'dtype': U8, 'shape': shape}
+                            if fn == 'key_schedule':
+                                calls.append({'fn': fn, 'args': {'key': key}})
+                            else:
+                                paired = rng.random() < 0.5 and nkeys > 1
+                                blk = {'buf': 'P', 'dtype': U8, 'shape': [nkeys, 16]} if paired else one_blk
+                                r, s = rng.choice([(None, None), (1, 0), (0, 3), (3, 2)])
+                                calls.append(self._cipher_call(fn, key, blk, r, s))
+                        yield {'class': 'a', 'buffers': {'K': img, 'B': _rand_row(rng, 16), 'P': _rand_row(rng, 64)}, 'calls': calls}
+            # (a) wider dtypes: n byte values stored as uint16 / int64, then the uint8 keys with the same memory image (and back)
+            for wide, isz in (('uint16', 2), ('int64', 8)):
+                for klen in KLENS:
+                    vals = _rand_row(rng, klen)
+                    img = _img(vals, wide)
+                    narrow_shapes = [sh for sh in ([klen * isz // 16, 16], [klen * isz // 24, 24], [klen * isz // 32, 32])
+                                     if sh[0] * sh[1] == klen * isz and sh[0] <= 4]
+                    if klen * isz in (16, 24, 32):
+                        narrow_shapes.append([klen * isz])
+                    for nshape in narrow_shapes[:2]:
+                        for fns in (('encrypt', 'encrypt'), ('key_schedule', 'key_schedule'), ('decrypt', 'encrypt')):
+                            kw = {'buf': 'K', 'dtype': wide, 'shape': [klen]}
+                            kn = {'buf': 'K', 'dtype': U8, 'shape': nshape}
+                            for order in ((kn, kw), (kw, kn)):
+                                calls = []
+                                for key, fn in zip(order, fns):
+                                    if fn == 'key_schedule':
+                                        calls.append({'fn': fn, 'args': {'key': key}})
+                                    else:
+                                        calls.append(self._cipher_call(fn, key, one_blk, *rng.choice([(None, None), (1, 3)])))
+                                yield {'class': 'a', 'buffers': {'K': img, 'B': _rand_row(rng, 16)}, 'calls': calls}
+            # (a) the state: 16 byte values as uint16 (32 bytes), then the two uint8 blocks with that image; primitives too
+            vals = _rand_row(rng, 16)
+            for klen in KLENS:
+                key = {'buf': 'K', 'dtype': U8, 'shape': [klen]}
+                sw = {'buf': 'S', 'dtype': 'uint16', 'shape': [16]}
+                sn = {'buf': 'S', 'dtype': U8, 'shape': [2, 16]}
+                for order in ((sw, sn), (sn, sw)):
+                    for fn in ('encrypt', 'decrypt'):
+                        yield {'class': 'a', 'buffers': {'K': _rand_row(rng, klen), 'S': _img(vals, 'uint16')},
+                               'calls': [self._cipher_call(fn, key, b) for b in order]}
+            for (pfn, _, w) in PRIMS:
+                v = _rand_row(rng, w)
+                yield {'class': 'a', 'buffers': {'S': _img(v, 'uint16')},
+                       'calls': [{'fn': pfn, 'args': {'state': {'buf': 'S', 'dtype': 'uint16', 'shape': [w]}}},
+                                 {'fn': pfn, 'args': {'state': {'buf': 'S', 'dtype': U8, 'shape': [2, w]}}}]}
+            # (b) the SAME ndarray object, mutated in place between the calls
+            for klen in KLENS:
+                key = {'buf': 'K', 'dtype': U8, 'shape': [klen]}
+                keys2 = {'buf': 'K2', 'dtype': U8, 'shape': [2, klen]}
+                for fn in ('encrypt', 'decrypt'):
+                    r, s = rng.choice([(None, None), (1, 0), (klen // 4 + 6, 0)])
+                    bufs = {'K': _rand_row(rng, klen), 'B': _rand_row(rng, 16), 'K2': _rand_row(rng, 2 * klen), 'P': _rand_row(rng, 32)}
+                    yield {'class': 'b', 'buffers': bufs, 'calls': [
+                        self._cipher_call(fn, key, one_blk, r, s),
+                        self._cipher_call(fn, key, one_blk, r, s, sets={'K': _rand_row(rng, klen)}),          # key object mutated
+                        self._cipher_call(fn, key, one_blk, r, s, sets={'B': _rand_row(rng, 16)}),            # state object mutated
+                    ]}
+                    blk2 = {'buf': 'P', 'dtype': U8, 'shape': [2, 16]}
+                    one_byte = list(bufs['K2'])
+                    one_byte[klen + 3] ^= 0x40                                                                   # one byte of the second key
+                    yield {'class': 'b', 'buffers': bufs, 'calls': [
+                        self._cipher_call(fn, keys2, blk2, r, s),
+                        self._cipher_call(fn, keys2, blk2, r, s, sets={'K2': one_byte}),
+                        self._cipher_call(fn, keys2, blk2, r, s, sets={'P': _rand_row(rng, 32)}),
+                    ]}
+                yield {'class': 'b', 'buffers': {'K': _rand_row(rng, klen)}, 'calls': [
+                    {'fn': 'key_schedule', 'args': {'key': key}},
+                    {'fn': 'key_schedule', 'args': {'key': key}, 'set': {'K': _rand_row(rng, klen)}},
+                    {'fn': 'key_schedule', 'args': {'key': key}}]}
+            for (pfn, _, w) in PRIMS:
+                st = {'buf': 'S', 'dtype': U8, 'shape': [2, w]}
+                yield {'class': 'b', 'buffers': {'S': _rand_row(rng, 2 * w)}, 'calls': [
+                    {'fn': pfn, 'args': {'state': st}},
+                    {'fn': pfn, 'args': {'state': st}, 'set': {'S': _rand_row(rng, 2 * w)}},
+                    {'fn': pfn, 'args': {'state': st}, 'scribble': True},
+                    {'fn': pfn, 'args': {'state': st}}]}
+            yield {'class': 'b', 'buffers': {'S': _rand_row(rng, 16), 'K': _rand_row(rng, 32)}, 'calls': [
+                {'fn': 'add_round_key', 'args': {'state': {'buf': 'S', 'dtype': U8, 'shape': [16]}, 'keys': {'buf': 'K', 'dtype': U8, 'shape': [2, 16]}}},
+                {'fn': 'add_round_key', 'args': {'state': {'buf': 'S', 'dtype': U8, 'shape': [16]}, 'keys': {'buf': 'K', 'dtype': U8, 'shape': [2, 16]}},
+                 'set': {'K': _rand_row(rng, 32)}}]}
+            # (c) one key, other blocks / modes / stop points;  (d) alternating encrypt / decrypt;  (e) result scribbled, call repeated
+            for klen in KLENS:
+                nr = klen // 4 + 6
+                key = {'buf': 'K', 'dtype': U8, 'shape': [klen]}
+                blk2 = {'buf': 'P', 'dtype': U8, 'shape': [2, 16]}
+                bufs = {'K': list(FIPS[klen][0][0]) if rep == 0 else _rand_row(rng, klen), 'B': list(FIPS[klen][0][1]), 'P': _rand_row(rng, 32)}
+                yield {'class': 'c', 'buffers': bufs, 'calls': [
+                    self._cipher_call('encrypt', key, one_blk), self._cipher_call('encrypt', key, blk2, 1, 2),
+                    self._cipher_call('encrypt', key, one_blk, nr, 1), self._cipher_call('decrypt', key, blk2, nr - 1, 3)]}
+                yield {'class': 'c', 'buffers': bufs, 'calls': [
+                    self._cipher_call('decrypt', key, blk2, 0, 0), self._cipher_call('decrypt', key, one_blk),
+                    {'fn': 'key_schedule', 'args': {'key': key}}, self._cipher_call('encrypt', key, blk2, nr, 3)]}
+                yield {'class': 'd', 'buffers': bufs, 'calls': [
+                    self._cipher_call('encrypt', key, one_blk), self._cipher_call('decrypt', key, one_blk),
+                    self._cipher_call('encrypt', key, one_blk), self._cipher_call('decrypt', key, blk2)]}
+                yield {'class': 'd', 'buffers': bufs, 'calls': [
+                    self._cipher_call('decrypt', key, blk2, 2, 1), self._cipher_call('encrypt', key, blk2, 2, 1),
+                    self._cipher_call('decrypt', key, blk2, 2, 1)]}
+                yield {'class': 'e', 'buffers': bufs, 'calls': [
+                    self._cipher_call('encrypt', key, blk2, None, None, scribble=True), self._cipher_call('encrypt', key, blk2),
+                    self._cipher_call('decrypt', key, one_blk, 0, 0, scribble=True), self._cipher_call('decrypt', key, one_blk, 0, 0)]}
+                yield {'class': 'e', 'buffers': bufs, 'calls': [
+                    {'fn': 'key_schedule', 'args': {'key': key}, 'scribble': True}, {'fn': 'key_schedule', 'args': {'key': key}},
+                    self._cipher_call('encrypt', key, one_blk, 0, 1, scribble=True), self._cipher_call('encrypt', key, one_blk, 0, 1),
+                ]}
+
+    # ---- running
+    @staticmethod
+    def _fresh():
+        """Every history starts from freshly re-executed scared.aes modules, so that a history (and its replay, and every
+        shrinking candidate) is self-contained: whatever an earlier case left in module-level state is gone."""
+        import importlib
+        import scared
+        import scared.aes.base
+        try:
+            importlib.reload(scared.aes.base)
+            importlib.reload(scared.aes)
+        except Exception:      # keep going with the modules as they are
+            pass
+        return scared
+
+    def run(self, case):
+        scared = self._fresh()
+        results = []          # (array returned, copy taken right after the call, scribbled by us?)
+
+        def do(call, arrays):
+            before = {a: arr.copy() for a, arr in arrays.items()}
+            fn = call['fn']
+            try:
+                if fn in ('encrypt', 'decrypt'):
+                    kw = {}
+                    if call.get('round') is not None:
+                        kw['at_round'] = call['round']
+                    if call.get('step') is not None:
+                        kw['after_step'] = call['step']
+                    out = getattr(scared.aes, fn)(arrays['blk'], arrays['key'], **kw)
+                elif fn == 'key_schedule':
+                    out = scared.aes.key_schedule(arrays['key'])
+                elif fn == 'add_round_key':
+                    out = scared.aes.add_round_key(arrays['state'], arrays['keys'])
+                else:
+                    out = getattr(scared.aes, fn)(arrays['state'])
+            except Exception as e:
+                results.append((None, None, True))
+                return {'raised': type(e).__name__, 'msg': str(e)[:200]}
+            o = {'shape': list(out.shape), 'values': _flat(out),
+                 'args_unchanged': all(arr.shape == before[a].shape and bool((arr == before[a]).all()) for a, arr in arrays.items())}
+            snap = out.copy()
+            scribbled = False
+            if call.get('scribble'):
+                try:
+                    out[...] = out ^ 0x5A          # the caller owns the returned array
+                    scribbled = True
+                except Exception:
+                    o['result_read_only'] = True
+            results.append((out, snap, scribbled))
+            return o
+
+        played = _play(case, do)
+        obs = {'calls': [o for _, o in played]}
+        obs['earlier_results_intact'] = [bool(s or out is None or (out.shape == snap.shape and (out == snap).all())) for out, snap, s in results]
+        return obs
+
+    def coq(self, case, obs):
+        played = _play(case)
+        lits = []
+        for call, (rows, _), o in zip(case['calls'], played, obs.get('calls', [{}] * len(case['calls']))):
+            fn = call['fn']
+            o = o if 'values' in o else {}
+            if fn in ('encrypt', 'decrypt'):
+                (keys, km), (blks, bm) = rows['key'], rows['blk']
+                lits.append('CallCipher ' + _coq_cipher(fn == 'decrypt', km, keys, bm, blks, call.get('round'), call.get('step'), o))
+            elif fn == 'key_schedule':
+                keys, km = rows['key']
+                lits.append('CallKs {| sc_many := %s; sc_keys := %s; sc_obs_shape := %s; sc_obs := %s |}' % (
+                    C.coq_bool(km), _rows(keys), C.coq_list(o.get('shape', []), C.coq_nat), _nlist(o.get('values', []))))
+            elif fn == 'add_round_key':
+                (st, sm), (ks, km) = rows['state'], rows['keys']
+                lits.append('CallArk {| kc_state_many := %s; kc_states := %s; kc_key_many := %s; kc_keys := %s; kc_obs_shape := %s; kc_obs := %s |}' % (
+                    C.coq_bool(sm), _rows(st), C.coq_bool(km), _rows(ks), C.coq_list(o.get('shape', []), C.coq_nat), _nlist(o.get('values', []))))
+            else:
+                st, _ = rows['state']
+                lits.append('CallPrim {| pc_op := %s; pc_rows := %s; pc_obs := %s |}' % (PRIM[fn][1], _rows(st), _nlist(o.get('values', []))))
+        return '[' + '; '.join(lits) + ']'
+
+    def oracle(self, case, obs):
+        if 'raised' in obs:
+            return f'history raised {obs["raised"]}: {obs["msg"]}'
+        for i, (call, o) in enumerate(zip(case['calls'], obs['calls'])):
+            if 'raised' in o:
+                return f'call {i} ({call["fn"]}) of the history raised {o["raised"]}: {o["msg"]}'
+            if not o['args_unchanged']:
+                return f'call {i} ({call["fn"]}) modified the caller\'s arrays'
+            if any(v < 0 or v > 255 for v in o['values']):
+                return f'call {i} ({call["fn"]}) returned a value outside 0..255'
+        for i, ok in enumerate(obs['earlier_results_intact']):
+            if not ok:
+                return f'the array returned by call {i} ({case["calls"][i]["fn"]}) was changed by a later call'
+        return None
+
+    def features(self, case, obs):
+        return {'class': case['class'], 'calls': len(case['calls']), 'fns': '+'.join(sorted({c['fn'] for c in case['calls']}))}
+
+    def tags(self, case, obs):
+        return ['history', 'history_' + case['class']]
+
+    def sample(self, case, obs):
+        return {'case': case, 'observed': {'calls': [dict(o, values=o.get('values', [])[:16]) for o in obs.get('calls', [])]}}
+
+    def shrink(self, case):
+        n = len(case['calls'])
+        if n > 1:
+            for i in range(n):                      # drop one call (its in-place mutation is kept: moved to the next call)
+                calls = [dict(c) for c in case['calls']]
+                dropped = calls.pop(i)
+                if dropped.get('set') and i < len(calls):
+                    merged = dict(dropped['set'])
+                    merged.update(calls[i].get('set') or {})
+                    calls[i]['set'] = merged
+                yield dict(case, calls=calls)
+        for i, c in enumerate(case['calls']):       # simpler stop point
+            if c['fn'] in ('encrypt', 'decrypt') and (c.get('round') is not None or c.get('step') is not None):
+                calls = [dict(x) for x in case['calls']]
+                calls[i]['round'] = None
+                calls[i]['step'] = None
+                yield dict(case, calls=calls)
+
+
+KINDS = [CipherKind(), PrimKind(), ArkKind(), KeyScheduleKind(), HistoryKind(), SpecKatKind()]
